@@ -424,11 +424,19 @@ def main():
 
     def do_random(a):
         out = os.path.join(chk.outdir, "rand_%02d_%s.ndjson" % (a["i"], a["profile"]))
-        o = json.loads(vlib.harness(cx.bins[a["profile"]],
-                                    ["tt", "random", "--seed", chk.seed * 1000 + a["i"], "--events", a["events"],
-                                     "--sizes", a["sizes"], "--bursts", a["bursts"], "--mix", a["mix"], "--out", out,
-                                     "--hash-min", cx.hmin, "--hash-max", cx.hmax, "--profile", a["profile"]],
-                                    timeout=1800))
+        targs = ["tt", "random", "--seed", chk.seed * 1000 + a["i"], "--events", a["events"],
+                 "--sizes", a["sizes"], "--bursts", a["bursts"], "--mix", a["mix"], "--out", out,
+                 "--hash-min", cx.hmin, "--hash-max", cx.hmax, "--profile", a["profile"]]
+        try:
+            o = json.loads(vlib.harness(cx.bins[a["profile"]], targs, timeout=1800))
+        except vlib.HarnessCrash as ex:
+            # the table took the whole process down (abort / segfault rather than an unwinding panic): that is data
+            done, last = 0, None
+            if os.path.exists(out):
+                for line in open(out):
+                    done, last = done + 1, line[:300]
+            return dict(kind="crash", profile=a["profile"], signal=-ex.returncode, stderr=ex.stderr.strip()[-300:],
+                        events_before=done, last_event=last, args=[str(x) for x in targs])
         t, st, cnt = validate(cx, out, "random")
         return dict(kind="random", profile=a["profile"], t=t, st=st, cnt=cnt, harness=o, sizes=a["sizes"])
 
@@ -508,6 +516,10 @@ def main():
     events = 0
     by = {"random": 0, "gen": 0, "directed": 0}
     sizes_seen, behaviours, gendiffs = set(), 0, 0
+    for r in [x for x in results if isinstance(x, dict) and x.get("kind") == "crash"]:
+        chk.violation("process-crash|%s|signal %d|%s" % (r["profile"], r["signal"], r["stderr"][-160:]),
+                      "table-operation-crashed-the-process", r, replay={"kind": "tt-random", "args": r["args"]})
+    results = [x for x in results if not (isinstance(x, dict) and x.get("kind") == "crash")]
     for r in results:
         if not isinstance(r, dict):
             continue
